@@ -6,6 +6,8 @@ PROP = dict(
                    "scanner yields the same fields, declarations and order for a shape and its flattening, that it keeps exactly the exported "
                    "fields reached through anonymous untagged by-value structs, that the properties built by the tag scanners are the same for "
                    "both forms, that a custom tag processor gets exactly the fields carrying its tag with NewProperty's parse of the tag text, "
+                   "that the value part handed over is the tag text before the first comma byte for byte — leading and trailing blanks and tabs "
+                   "included, a value of blanks only included — whenever it holds no bracket (C11_value_verbatim), "
                    "and that only recognised fields can be written. The model is tied to the real Meta.scanFields / tag-scan processors on "
                    "every run by comparing, for thousands of runtime-built struct types (reflect.StructOf) and hand-written static types, the "
                    "real definition registry's Fields and Properties after app.Run with the Lean driver's output; sentinel read-back, "
@@ -27,6 +29,14 @@ PROP = dict(
              "holder as only candidate = start refused), the points declared directly (flat twins) and in an embedded struct that is the first member, "
              "after plain members, after another embedded struct, two and three levels deep, first member at every level, first member of a "
              "non-first embedded struct; each compared with its flat twin (scan-renest) and with the plain form [A] (scan-missed); "
+             "sixth round (white space at the edges of tag VALUES, scanBlankPass, drawn from a PRNG seeded by the shape so the shapes stay the ones drawn before): "
+             "two custom tags in five get a value that begins and/or ends with blanks / tabs, is made of blanks only or is a separator like ' | ' (arguments "
+             "untouched; structured and unstructured texts alike; about 27% of the cases, 17% below at least one embedded level: labels custom-blank-value, "
+             "custom-blank-value-embedded), every second plain string `value` literal is padded the same way (' lit', '${s.k1} ', '  ', '-> ': label value-blank-literal, "
+             "the padded forms are among the plain forms of scan-missed); oracle scan-custom-value: the recorder's value equals the text before the first comma, "
+             "read off the tag text by the harness (texts with a bracket in the value part are left to scan-custom-args, whose reader now keeps blanks and tabs in "
+             "the value); corpus: static types X21/X22 (separators and blank literals directly and one / two embedded levels down, with the flat twin) and a StructOf "
+             "shape with the same units 0 / 1 / 2 / 4 levels down, once next to an extra processor; "
              "non-trivial = at least one embedded level and at least one recognised exported unit; distinct = distinct scenario lines",
         trusted_base=COMMON_TB + ["reflect.StructOf builds types that reflect treats like compiled ones (checked against 4 compiled static types in the corpus)",
                                   "the harness recovers field paths from the real Holder chain by address (zero-size embedded structs have no fields, so no ambiguity)"],
